@@ -457,7 +457,7 @@ Record dmsg := mkMsg { m_t : option (list N); m_y : option (list N); m_q : optio
 Inductive derr :=
 | E_no_tid | E_tid_long | E_no_type | E_unsupported_type | E_bad_id | E_id_short | E_own_id
 | E_unknown_type | E_malformed | E_target_short | E_no_nodes | E_ih_short | E_no_peers_nodes
-| E_token | E_unknown_query | E_port.
+| E_token | E_unknown_query | E_port | E_bad_t.
 
 (* what goes back to the source address: nothing, a "y":"e" message, or a "y":"r" message whose
    r.id is the own id *)
@@ -678,3 +678,206 @@ End WithSha.
 Definition init_bucket (t0 : N) : bucket := mkBucket 0 (idspace - 1) [] t0 0 0 [].
 Definition init (ownid c p t0 : N) : state :=
   mkState ownid t0 c p (mkTable [init_bucket t0] [idspace - 1] (idspace - 1)) [] false.
+
+(* ================================================================ DhtServer transactions (ping only)
+   The router layer above is wrapped: [sstate] adds the server's pending transactions, m_networkUp
+   and a sticky flag [untracked] that is raised as soon as the server starts a DhtSearch (bucket
+   bootstrap by housekeeping of a non-empty table, or by a split that leaves a half empty): search
+   transactions are not modelled, so from then on replies / errors / transaction timeouts are not
+   interpreted (Rskip on both sides).  While tracked, every transaction is a ping created by
+   node_queried for an unknown, wanted node; there is at most one per address (DhtServer::ping),
+   hence its id is always the first candidate random() & 0xff. *)
+Record txn := mkTx { x_ip : N; x_tid : N; x_id : N; x_timeout : N; x_sent : bool }.
+Record sstate := mkSS { rs : state; txs : list txn; netup : bool; untracked : bool; fill : N }.
+
+Inductive sop :=
+| SBase (o : op)
+| SReply (ip : N) (t : option (list N)) (idb : option (list N))   (* y = "r" from ip: t, r.id *)
+| SError (ip : N) (t : option (list N))                            (* y = "e" from ip *)
+| STimeout                                                          (* DhtServer::receive_timeout *)
+| STxDump.
+
+Definition ping_timeout : N := 30.
+Definition max_transactions : N := 1024.
+
+Definition wants_ping (s : state) (id : N) : bool :=
+  match lookup id (tb (tab s)) with None => want_node s id | Some _ => false end.
+
+(* DhtServer::ping + add_transaction *)
+Definition ping (ss : sstate) (nw id ip : N) : sstate :=
+  if max_transactions <=? lenN (txs ss) then ss
+  else if existsb (fun x => x_ip x =? ip) (txs ss) then ss
+  else mkSS (rs ss) (txs ss ++ [mkTx ip (fill ss mod 256) id (nw + ping_timeout) false]) (netup ss) (untracked ss) (fill ss).
+
+(* event_write: every queued packet goes out *)
+Definition flush (ss : sstate) : sstate :=
+  mkSS (rs ss) (map (fun x => mkTx (x_ip x) (x_tid x) (x_id x) (x_timeout x) true) (txs ss)) (netup ss) (untracked ss) (fill ss).
+
+Definition nodes_total (t : table) : N := lenN (flat_map bnodes (tb t)).
+
+(* does add_node_to_bucket call bootstrap_bucket (a split that leaves one half empty)?  Mirrors add_loop. *)
+Fixpoint add_boot (fuel : nat) (ownid tm : N) (nd : node) (k : N) (t : table) : bool :=
+  match fuel with
+  | O => false
+  | S f =>
+    match get_bucket k (tb t) with
+    | None => false
+    | Some b =>
+      if negb (is_full b) then false
+      else match find_cand (bnodes b) with
+           | None => false
+           | Some c =>
+             if is_bad c then add_boot f ownid tm nd k (mkTable (map_bucket k (b_remove c) (tb t)) (tchain t) (town t))
+             else if negb (k =? town t) then false
+             else let '(t', k', bad) := split_bucket ownid (nid nd) b t in
+                  if bad then false
+                  else let otherk := if k' =? bhi b then mid_point (blo b) (bhi b) else bhi b in
+                       let empty_half := match get_bucket otherk (tb t') with Some ob => match bnodes ob with [] => true | _ => false end | None => false end in
+                       empty_half || add_boot f ownid tm nd k' t'
+           end
+    end
+  end.
+
+Definition replied_boots (s : state) (id ip port : N) : bool :=
+  if id =? own s then false else
+  match lookup id (tb (tab s)) with
+  | Some _ => false
+  | None => if negb (want_node s id) then false
+            else match find_bucket id (tb (tab s)) with
+                 | None => false
+                 | Some b => add_boot add_fuel (own s) (now s) (mkNode id ip port 0 false 0) (bhi b) (tab s)
+                 end
+  end.
+
+Section WithSha2.
+Variable sha : list N -> list N.
+
+(* the part of event_read / process_query that matters for the transaction layer: did the datagram
+   reach process_query (m_networkUp := true), and with which id / intermediate state / success *)
+Definition dgram_info (s : state) (ip rnd : N) (m : dmsg) : option (N * state * bool) :=
+  match m_t m with
+  | None => None
+  | Some t =>
+    if 20 <? lenN t then None else
+    match m_y m with
+    | Some [ty] =>
+      if ty =? 113 then
+        match m_id m with
+        | None => None
+        | Some idb =>
+          if lenN idb <? hs_len then None
+          else let id := be_to_N (firstn idbytes idb) in
+               if id =? own s then None
+               else match m_q m with
+                    | None => Some (id, s, false)
+                    | Some q => match query_body sha s ip rnd q m with
+                                | (s1, inl _) => Some (id, s1, false)
+                                | (s1, inr _) => Some (id, s1, true)
+                                end
+                    end
+        end
+      else None
+    | _ => None
+    end
+  end.
+
+Definition with_rs (ss : sstate) (s : state) : sstate := mkSS s (txs ss) (netup ss) (untracked ss) (fill ss).
+Definition set_netup (ss : sstate) (b : bool) : sstate := mkSS (rs ss) (txs ss) b (untracked ss) (fill ss).
+Definition set_untracked (ss : sstate) (b : bool) : sstate := mkSS (rs ss) (txs ss) (netup ss) (untracked ss || b) (fill ss).
+Definition set_txs (ss : sstate) (l : list txn) : sstate := mkSS (rs ss) l (netup ss) (untracked ss) (fill ss).
+
+Definition find_tx (ip tid : N) (l : list txn) : option txn :=
+  find (fun x => (x_ip x =? ip) && (x_tid x =? tid)) l.
+Definition remove_tx (ip tid : N) (l : list txn) : list txn :=
+  filter (fun x => negb ((x_ip x =? ip) && (x_tid x =? tid))) l.
+
+Definition sstep_base (ss : sstate) (o : op) : sstate * res :=
+  let s := rs ss in
+  let (s', r) := step sha s o in
+  let ss1 := with_rs ss s' in
+  if err s then (ss1, r) else
+  match o with
+  | OQueried id ip port =>
+    if id =? own s then (ss1, r)
+    else if wants_ping s id then (ping ss1 (now s) id ip, r) else (ss1, r)
+  | ODgram ip rnd m =>
+    match r with
+    | Rskip => (ss1, r)
+    | _ => match dgram_info s ip rnd m with
+           | None => (flush ss1, r)
+           | Some (id, s1, ok) =>
+             let ss2 := set_netup ss1 true in
+             (flush (if ok && wants_ping s1 id then ping ss2 (now s) id ip else ss2), r)
+           end
+    end
+  | OGarbage ip => (flush ss1, r)
+  | OHousekeeping _ => (set_untracked (set_netup ss1 false) (0 <? nodes_total (tab s)), r)
+  | OReplied id ip port => (set_untracked ss1 (replied_boots s id ip port), r)
+  | _ => (ss1, r)
+  end.
+
+(* one expired transaction: DhtServer::failed_transaction(itr, false) for a ping *)
+Definition expire (ss : sstate) (x : txn) : sstate :=
+  let ss1 := if netup ss && x_sent x && negb (x_id x =? 0)
+             then with_rs ss (fst (step sha (rs ss) (OInactive (x_id x) (x_ip x) 0))) else ss in
+  set_txs ss1 (remove_tx (x_ip x) (x_tid x) (txs ss1)).
+
+Definition sstep (ss : sstate) (o : sop) : sstate * res :=
+  match o with
+  | SBase b => sstep_base ss b
+  | STxDump => (ss, Rnone)
+  | _ =>
+    if untracked ss || err (rs ss) then (ss, Rskip) else
+    match o with
+    | SReply ip t idb =>
+      match t with
+      | None => (flush ss, Rdg (RpErr None E_no_tid))
+      | Some tb =>
+        if 20 <? lenN tb then (flush ss, Rdg (RpErr (err_t t) E_tid_long)) else
+        match idb with
+        | None => (flush ss, Rdg (RpErr (Some tb) E_bad_id))
+        | Some ib =>
+          if lenN ib <? hs_len then (flush ss, Rdg (RpErr (Some tb) E_id_short))
+          else let id := be_to_N (firstn idbytes ib) in
+               match tb with
+               | [tid] =>
+                 if id =? own (rs ss) then (flush ss, Rdg RpNone)
+                 else match find_tx ip tid (txs ss) with
+                      | None => (flush ss, Rdg RpNone)                       (* unsolicited: ignored *)
+                      | Some x =>
+                        let ss1 := set_netup ss true in
+                        if negb (id =? x_id x) && negb (x_id x =? 0) then (flush ss1, Rdg RpNone)   (* wrong id: ignored, kept *)
+                        else let ss2 := with_rs ss1 (fst (step sha (rs ss1) (OReplied id ip 0))) in
+                             let ss3 := set_untracked ss2 (replied_boots (rs ss1) id ip 0) in
+                             (flush (set_txs ss3 (remove_tx ip tid (txs ss3))), Rdg RpNone)
+                      end
+               | _ => (* malformed reply from a node that names itself: counts as a failed query *)
+                 (flush (with_rs ss (fst (step sha (rs ss) (OInactive id ip 0)))), Rdg RpNone)
+               end
+        end
+      end
+    | SError ip t =>
+      match t with
+      | None => (flush ss, Rdg (RpErr None E_no_tid))
+      | Some tb =>
+        if 20 <? lenN tb then (flush ss, Rdg (RpErr (err_t t) E_tid_long)) else
+        match tb with
+        | [tid] => match find_tx ip tid (txs ss) with
+                   | None => (flush ss, Rdg RpNone)
+                   | Some x => let ss1 := set_netup ss true in
+                               (flush (set_txs ss1 (remove_tx ip tid (txs ss1))), Rdg RpNone)
+                   end
+        | _ => (flush ss, Rdg (RpErr (Some tb) E_bad_t))
+        end
+      end
+    | STimeout =>
+      (fold_left (fun a x => if x_timeout x <? now (rs a) then expire a x else a) (txs ss) ss, Rnone)
+    | _ => (ss, Rnone)
+    end
+  end.
+
+Definition srun (ss : sstate) (ops : list sop) : sstate := fold_left (fun a o => fst (sstep a o)) ops ss.
+
+End WithSha2.
+
+Definition sinit (ownid c p t0 fl : N) : sstate := mkSS (init ownid c p t0) [] false false fl.
